@@ -578,3 +578,35 @@ Theorem C15_source_chr_y_filter : forall t build b gb,
   Gen.FnCnaryYFilter.fn_chr_y_filter (b_chrom b) (y_label t) (Proofs.FnCnaryYFilter.has_build_y build)
                                      (Proofs.FnCnaryYFilter.fn_pary_of t build gb b).
 Proof. exact Proofs.FnCnaryYFilter.fn_chr_y_filter_eq. Qed.
+
+From CNV Require Proofs.FnCnaryMood Proofs.FnCnaryChrom.
+
+(* compare_to_auto, the whole nested function (try / except ValueError / else around scipy's median_test, then the rule
+   `stat == 0 and 0 in cont`): the model's mood_stat is its first result when median_test raises exactly where the model
+   says (an empty sample, an empty row / column of the table), returns the oracle's statistic and `0 in cont` is
+   table_has_zero ... *)
+Theorem C15_source_mood_stat : forall gstat s1 s2 p med cont use wa wv ma mv,
+  mood_stat gstat s1 s2 =
+  fst (Gen.FnCnaryMood.fn_compare_to_auto (Proofs.FnCnaryMood.mood_raises s1 s2) (gstat (mood_table s1 s2)) p med cont
+                                          (table_has_zero (mood_table s1 s2)) use wa wv ma mv).
+Proof. exact Proofs.FnCnaryMood.fn_mood_stat_eq. Qed.
+
+(* ... and med_diff its second result: |weighted median - weighted median| when the table has weights, else
+   |median - median|, whatever the test did *)
+Theorem C15_source_med_diff : forall raised st p med cont zc (use : bool) auto_l aw vals vw,
+  med_diff auto_l (if use then Some aw else None) vals (if use then Some vw else None) ==
+  snd (Gen.FnCnaryMood.fn_compare_to_auto raised st p med cont zc use (wmed auto_l aw) (wmed vals vw)
+                                          (median auto_l) (median vals)).
+Proof. exact Proofs.FnCnaryMood.fn_med_diff_eq. Qed.
+
+(* compare_chrom, the whole nested function: the female-shift call first, the male-shift call second, then the ratio --
+   the model's male_lr on the model's two compare_to_auto results *)
+Theorem C15_source_male_lr : forall gstat auto_l auto_w vals w female_shift male_shift,
+  male_lr gstat auto_l auto_w vals w female_shift male_shift ==
+  Gen.FnCnaryChrom.fn_compare_chrom_whole
+    (mood_stat gstat auto_l (Proofs.FnCnaryChrom.shifted vals female_shift))
+    (med_diff auto_l auto_w (Proofs.FnCnaryChrom.shifted vals female_shift) w)
+    (val_of (mood_stat gstat auto_l (Proofs.FnCnaryChrom.shifted vals male_shift)))
+    (med_diff auto_l auto_w (Proofs.FnCnaryChrom.shifted vals male_shift) w)
+    (some_of (mood_stat gstat auto_l (Proofs.FnCnaryChrom.shifted vals male_shift))).
+Proof. exact Proofs.FnCnaryChrom.fn_male_lr_eq. Qed.
